@@ -655,6 +655,12 @@ pub fn stress_templates() -> Vec<(String, String)> {
         s.push_str("print(\"before\\n\");\nprint(\"~\\n\", r0);\nprint(\"after\\n\")\n");
         v.push((format!("cyclic_array_ring_{}", n), s));
     }
+    // the same cycles met on a heap that already holds very many values (anything an implementation bounds by the heap's
+    // size instead of by the path — a depth counter, a visited bitmap, a per-print table — is exercised here)
+    for n in [20_000usize, 300_000] {
+        v.push((format!("cyclic_object_on_a_heap_of_{}", n), format!("let i = 0;\nlet keep = null;\nwhile i < {} do begin keep <- array(1, i); i <- i + 1 end;\nlet o = object begin let next = null; end;\no.next <- o;\nprint(\"before\\n\");\nprint(\"~\\n\", o);\nprint(\"after\\n\")\n", n)));
+        v.push((format!("cyclic_array_on_a_heap_of_{}", n), format!("let i = 0;\nlet keep = null;\nwhile i < {} do begin keep <- object begin let n = i; end; i <- i + 1 end;\nlet a = array(2, 0);\na[1] <- a;\nprint(\"before\\n\");\nprint(\"~\\n\", a);\nprint(\"after\\n\")\n", n)));
+    }
     v.push(("cyclic_object_via_parent_field".into(), "let p = object begin let child = null; end;\nlet q = object extends p begin let x = 1; end;\np.child <- q;\nprint(\"partial \");\nprint(\"~\\n\", q)\n".into()));
     v.push(("cycle_mixed_array_object".into(), "let a = array(1, null);\nlet o = object begin let arr = a; end;\na[0] <- o;\nprint(\"~\\n\", a)\n".into()));
     v.push(("cycle_dispatch_not_print".into(), "let o = object begin let me = null; function m() -> 1; end;\no.me <- o;\nprint(\"~\\n\", o.me.me.me.m())\n".into()));
